@@ -47,7 +47,8 @@ ENTRIES = {
     "C08": _XK + ["bip32.DerivePath", "bip32.DeriveNumber"],
     "C09": _CURVE,  # field.go and the curve formulas are regenerated and re-proved; the glue between the big.Int API and
                     # them (bigAffineToField, the scalar loops, NAF, splitK) is hand-modelled and decides the call-site contracts
-    "C10": [],
+    "C10": _CURVE + ["bec.ParsePubKey"],   # the call sites of Normalise/Equals/IsOdd/IsZero/Bytes: a predicate applied to a value
+                                           # that is not normalised there is a C10 matter too
     "C11": ["bec.Encrypt", "bec.Decrypt", "bec.GenerateSharedSecret", "bec.NewPrivateKey", "bec.PrivKeyFromBytes", "crypto.Encrypt", "crypto.Decrypt", "bec.S256"],
     "C12": ["bec.SignCompact", "bec.RecoverCompact", "bec.PrivKeyFromBytes", "bec.S256"],
     "C13": ["base58.Encode", "base58.Decode", "base58.CheckEncode", "base58.CheckDecode"],
